@@ -301,4 +301,5 @@ def main():
     dlib.dump([run_case(c) for c in cases])
 
 
-main()
+if __name__ == "__main__":
+    main()
